@@ -370,3 +370,23 @@ func init() {
 	intrinsics["internal/bytealg.Compare"] = cmp
 	intrinsics["internal/bytealg.CompareString"] = cmp
 }
+
+// sync.Pool: no pooling (Get calls New, Put drops the value).
+func init() {
+	intrinsics["(*sync.Pool).Get"] = func(e *Engine, fr *frame, pos token.Pos, a []Value) Value {
+		p, ok := a[0].(*Value)
+		if !ok || p == nil {
+			panic(unsupported("sync.Pool.Get on an unexpected receiver"))
+		}
+		st, ok := (*p).(Struct)
+		if !ok || len(st) == 0 {
+			panic(unsupported("sync.Pool layout"))
+		}
+		newFn := st[len(st)-1]
+		if isNilVal(newFn) {
+			return Iface{}
+		}
+		return e.call(fr, pos, newFn, nil)
+	}
+	intrinsics["(*sync.Pool).Put"] = func(e *Engine, _ *frame, _ token.Pos, a []Value) Value { return nil }
+}
